@@ -851,17 +851,17 @@ func main() {
 		per[n] = map[string]any{"seeds": st.Seeds, "units": st.Units, "extracted": st.Evals, "exercised": st.Exerc, "max_alloc_bytes_one_call": st.MaxAlloc, "slowest_call_ms": st.SlowMs}
 	}
 	r.Set("per_extractor", per)
-	r.Set("operator_set", "v1: identity; truncate; delete/duplicate/swap-adjacent line; replace byte by one of 16 structural tokens; (thorough, binary seeds) set byte of first 1 KiB to 00/ff")
+	r.Set("operator_set", "v1: identity; truncate; delete/duplicate/swap-adjacent line; replace byte by one of 16 structural tokens; (thorough) delete/duplicate byte; (thorough, binary seeds) set byte of first 1 KiB to 00/ff")
 	r.Assume("java/pomxmlnet is excluded (needs a registry); arbitrary byte strings are NOT covered: only edit distance <= 1 from a fixture or minimal document under operator set v1")
 	b := boundsFor(tier)
 	rule := fmt.Sprintf("for each of %d offline built-in extractors x each seed (every testdata fixture + %d minimal documents, identical contents merged) x each production placement (paths.go, validated against FileRequired): "+
 		"every mutant of operator set v1 — identity; truncate at every offset (seeds <= %d B; larger: every 512-byte boundary); delete / duplicate / swap-adjacent line i (seeds <= %d B); "+
-		"replace byte i by each of 16 structural tokens at every offset (seeds <= %d B) or at line starts (seeds <= %d B); set each byte of the first 1 KiB to 00/ff (binary seeds, thorough=%v) — "+
+		"replace byte i by each of 16 structural tokens at every offset (seeds <= %d B) or at line starts (seeds <= %d B); delete / duplicate byte i (seeds <= %d B); set each byte of the first 1 KiB to 00/ff (binary seeds, thorough=%v) — "+
 		"is handed to Extract with a complete ScanInput; Extract must return (no panic, no process death, no RLIMIT_AS 8 GiB abort, < 2 GiB allocated per call, answer within the %v watchdog). "+
 		"evaluations = Extract calls + containment scans; distinct_nontrivial = distinct (extractor, placement, mutant bytes) whose Extract returned an error or >= 1 package (i.e. got past the format sniffing or was rejected with a diagnosis; empty error-free results are not counted). "+
 		"Containment: for each extractor and each error class (first 48 chars of the error text, paths/quoted text/digits removed; first %d classes per extractor in enumeration order) the first mutant of that class is scanned by scalibr.Scanner.Scan next to a healthy requirements.txt (dpkg status for python/requirements): "+
 		"the scan completes, the healthy extractor's packages and status equal those of the scan without the bad file, and the failing extractor's status is Failed or PartiallySucceeded.",
-		len(names), len(minimalDocs), b.truncAll, b.lineOps, b.sigmaAll, b.sigmaLine, b.binFF, c.watchdog, maxClassesPerExtractor)
+		len(names), len(minimalDocs), b.truncAll, b.lineOps, b.sigmaAll, b.sigmaLine, b.byteOps, b.binFF, c.watchdog, maxClassesPerExtractor)
 	r.Finish(rule, true)
 }
 
